@@ -1057,18 +1057,37 @@ func (w *ioWorld) snapshot() string {
 var ioDigits = regexp.MustCompile(`[0-9]+`)
 var ioQuoted = regexp.MustCompile(`"[^"]*"`)
 
+// replaces tok where it stands alone (not inside a word or a longer path)
+func ioReplaceToken(s, tok, repl string) string {
+	if tok == "" {
+		return s
+	}
+	isWord := func(c byte) bool {
+		return c == '_' || c == '.' || c == '-' || c == '/' || (c >= '0' && c <= '9') || (c >= 'a' && c <= 'z') || (c >= 'A' && c <= 'Z')
+	}
+	var b strings.Builder
+	for i := 0; i < len(s); {
+		if strings.HasPrefix(s[i:], tok) && (i == 0 || !isWord(s[i-1])) && (i+len(tok) == len(s) || !isWord(s[i+len(tok)])) {
+			b.WriteString(repl)
+			i += len(tok)
+			continue
+		}
+		b.WriteByte(s[i])
+		i++
+	}
+	return b.String()
+}
+
 func ioNormalise(line string, names []string) string {
-	// "<path>: <message>" -> message with the tree's names replaced
+	// "<path>: <message>" -> message with the tree's paths replaced
 	if i := strings.Index(line, ": "); i >= 0 {
 		p := line[:i]
-		line = strings.ReplaceAll(line[i+2:], p, "<p>")
+		line = ioReplaceToken(line[i+2:], p, "<p>")
 	}
 	line = ioQuoted.ReplaceAllString(line, `"<s>"`)
 	sort.Slice(names, func(i, j int) bool { return len(names[i]) > len(names[j]) })
 	for _, n := range names {
-		if len(n) > 1 {
-			line = strings.ReplaceAll(line, n, "<n>")
-		}
+		line = ioReplaceToken(line, n, "<n>")
 	}
 	line = ioDigits.ReplaceAllString(line, "N")
 	line = strings.Join(strings.Fields(line), "_")
@@ -1095,6 +1114,9 @@ func (w *ioWorld) qFstest() {
 	first := lines[0]
 	if len(lines) > 1 {
 		first = lines[1]
+		if strings.HasSuffix(first, ":") && len(lines) > 2 { // "failed TestReader:" + detail on the next line
+			first += " " + strings.TrimSpace(lines[2])
+		}
 	}
 	w.fail("fstest:"+w.kind+":"+ioNormalise(first, append([]string{}, expected...)), "%d error lines, first: %s", len(lines)-1, first)
 }
